@@ -50,6 +50,9 @@ def run(idx, rep, tier):
     r5(idx, rep)
     from . import c09
     c09.empty_collection(idx, rep, "R2")
+    # what a later member, a header reference or a replay reads out of data.csv are the cells that were collected: the file is parsed back
+    # with the delimiter and quotechar it was written with
+    c09.spooler_dialect(idx, rep, "R3")
     # the chain a run executes is the group as it is declared *now* (a source-mode comment added by re-declaring the group takes effect):
     # C12's curated sequences with reads between writes
     from . import c12
